@@ -551,6 +551,7 @@ func genReq(kind string, big bool) *rapid.Generator[ReqSpec] {
 				r.ExtValue = genBytes().Draw(t, "extvalue")
 			}
 		case "unbind":
+			_ = rapid.Bool().Draw(t, "unbind-pad") // a Custom generator must consume data
 		}
 		if k != "extended" && k != "unbind" {
 			if rapid.IntRange(0, 2).Draw(t, "withctl") > 0 {
